@@ -87,4 +87,85 @@ class DeMorgan(ast.NodeTransformer):
         return node
 
 
-TRANSFORMS = {"flip": Flip, "guard": Guard, "whiletrue": WhileTrue, "demorgan": DeMorgan}
+class TmpVar(ast.NodeTransformer):
+    """`return <expr>` (expr a call / operation)  ->  `_retN = <expr>; return _retN`, a fresh local per site."""
+
+    def __init__(self):
+        self.k = 0
+
+    def _block(self, stmts):
+        out = []
+        for st in stmts:
+            if isinstance(st, ast.Return) and isinstance(st.value, (ast.Call, ast.BinOp, ast.Compare, ast.BoolOp, ast.Subscript, ast.Attribute)) \
+                    and not any(isinstance(x, (ast.Await, ast.Yield, ast.YieldFrom, ast.NamedExpr)) for x in ast.walk(st.value)):
+                self.k += 1
+                nm = f"_ret{self.k}"
+                out.append(ast.Assign(targets=[ast.Name(id=nm, ctx=ast.Store())], value=st.value, type_comment=None))
+                out.append(ast.Return(value=ast.Name(id=nm, ctx=ast.Load())))
+            else:
+                out.append(st)
+        return out
+
+    def generic_visit(self, node):
+        super().generic_visit(node)
+        for f in ("body", "orelse", "finalbody"):
+            lst = getattr(node, f, None)
+            if isinstance(lst, list) and lst and isinstance(lst[0], ast.stmt):
+                setattr(node, f, self._block(lst))
+        return node
+
+    def visit_ClassDef(self, node):
+        # class bodies have no returns of their own; functions inside are visited
+        for i, st in enumerate(node.body):
+            node.body[i] = self.visit(st)
+        return node
+
+
+class CondVar(ast.NodeTransformer):
+    """`if <comparison / and-or test>:`  ->  `_condN = <test>; if _condN:` (first test of an if/elif chain only; loops untouched)."""
+
+    def __init__(self):
+        self.k = 0
+
+    def _block(self, stmts):
+        out = []
+        for st in stmts:
+            if isinstance(st, ast.If) and isinstance(st.test, (ast.Compare, ast.BoolOp)) \
+                    and not any(isinstance(x, (ast.Await, ast.Yield, ast.YieldFrom, ast.NamedExpr)) for x in ast.walk(st.test)):
+                self.k += 1
+                nm = f"_cond{self.k}"
+                out.append(ast.Assign(targets=[ast.Name(id=nm, ctx=ast.Store())], value=st.test, type_comment=None))
+                st.test = ast.Name(id=nm, ctx=ast.Load())
+            out.append(st)
+        return out
+
+    def generic_visit(self, node):
+        super().generic_visit(node)
+        if isinstance(node, ast.ClassDef) or isinstance(node, ast.Module):
+            return node
+        for f in ("body", "orelse", "finalbody"):
+            lst = getattr(node, f, None)
+            if isinstance(lst, list) and lst and isinstance(lst[0], ast.stmt):
+                # an `elif` is the single If in an orelse list: leave the chain's later tests where they are (evaluation order)
+                if f == "orelse" and isinstance(node, ast.If) and len(lst) == 1 and isinstance(lst[0], ast.If):
+                    continue
+                setattr(node, f, self._block(lst))
+        return node
+
+
+class SortDefs(ast.NodeTransformer):
+    """Methods of every class re-ordered alphabetically (stable: same-name definitions such as property setters keep their order;
+    non-function statements stay in front in their order)."""
+
+    def visit_ClassDef(self, node):
+        self.generic_visit(node)
+        fns = [x for x in node.body if isinstance(x, (ast.FunctionDef, ast.AsyncFunctionDef))]
+        if any(isinstance(x, (ast.FunctionDef, ast.AsyncFunctionDef)) is False and i > min((node.body.index(f) for f in fns), default=0)
+               and not (isinstance(x, ast.Expr) and isinstance(x.value, ast.Constant)) for i, x in enumerate(node.body)):
+            return node        # class-level statements between methods may depend on the order: leave the class alone
+        rest = [x for x in node.body if not isinstance(x, (ast.FunctionDef, ast.AsyncFunctionDef))]
+        node.body = rest + sorted(fns, key=lambda f: f.name)
+        return node
+
+
+TRANSFORMS = {"flip": Flip, "guard": Guard, "whiletrue": WhileTrue, "demorgan": DeMorgan, "tmpvar": TmpVar, "condvar": CondVar, "sortdefs": SortDefs}
